@@ -63,7 +63,7 @@ def values(rng, shape, dtype='f', nan=0.0, lo=1, hi=4000):
     if dtype == 'b':
         v = np.array([rng.random() < 0.5 for _ in range(size)], dtype=bool)
         return v.reshape(shape)
-    ids = rng.sample(range(lo, hi), size)
+    ids = rng.sample(range(lo, max(hi, lo + 2 * size)), size)
     if dtype == 'O':
         v = np.empty(size, dtype=object)
         for k, i in enumerate(ids):
